@@ -181,12 +181,23 @@ func gStrLit(n ast.Node, v string) string {
 	if err != nil {
 		fail("genumgen: %s: string literal %s", at(n), v)
 	}
+	var b strings.Builder
+	b.WriteByte('"')
 	for _, r := range s {
-		if r < 0x20 || r > 0x7e || r == '\\' || r == '"' {
+		switch {
+		case r == '\\' || r == '"':
+			b.WriteByte('\\')
+			b.WriteRune(r)
+		case r >= 0x20 && r <= 0x7e:
+			b.WriteRune(r)
+		case r < 0x20:
+			fmt.Fprintf(&b, "\\x%02x", r) // the same escape in Lean
+		default:
 			fail("genumgen: %s: string literal %s has a character the translation does not carry over", at(n), v)
 		}
 	}
-	return "\"" + s + "\""
+	b.WriteByte('"')
+	return b.String()
 }
 
 // typeOf: the Lean type of a Go expression; fails outside the fragment.
@@ -308,6 +319,15 @@ func (t *gg) binary(x *ast.BinaryExpr) (string, string) {
 		}
 		return "(" + a + " || " + b + ")", gtBool
 	}
+	if id, ok := x.Y.(*ast.Ident); ok && id.Name == "nil" && (x.Op == token.EQL || x.Op == token.NEQ) {
+		// a types.Type interface value compared with nil
+		if a, ta := t.expr(x.X, ""); ta == gtType {
+			if x.Op == token.EQL {
+				return a + ".isNil", gtBool
+			}
+			return "(!" + a + ".isNil)", gtBool
+		}
+	}
 	a, ta := t.expr(x.X, "")
 	b, tb := t.expr(x.Y, ta)
 	if ta != tb {
@@ -343,6 +363,9 @@ func (t *gg) binary(x *ast.BinaryExpr) (string, string) {
 	case token.ADD:
 		if ta == gtNat {
 			return "(" + a + " + " + b + ")", gtNat
+		}
+		if ta == gtStr {
+			return "(" + a + " ++ " + b + ")", gtStr
 		}
 	}
 	t.bad(x, "operator in")
@@ -1317,7 +1340,7 @@ func runGenumGen(repo, out string) {
 		b.WriteString("  | " + name(k) + "\n")
 	}
 	b.WriteString("  deriving DecidableEq, Repr, Inhabited\n\n")
-	b.WriteString("/-- what the translated functions ask go/types about a `types.Type`: `basic` = `Underlying().(*types.Basic)`\n(`none`: the assertion fails) with its `Kind()`; `typesImplements pkg name` = `types.Implements(T, I)` and\n`gcTypeImplements pkg name` = `gencommon.TypeImplements(T, I)` for the interface `I` that\n`gencommon.FindIFaceDef(pkg, name)` finds; `defaultTypeId` = the class of `types.Default(T)` under `types.Identical` -/\nstructure GType where\n  basic : Option BasicKind\n  defaultTypeId : Nat\n  typesImplements : String → String → Bool\n  gcTypeImplements : String → String → Bool\n  deriving Inhabited\n\n")
+	b.WriteString("/-- what the translated functions ask go/types about a `types.Type`: `basic` = `Underlying().(*types.Basic)`\n(`none`: the assertion fails) with its `Kind()`; `typesImplements pkg name` = `types.Implements(T, I)` and\n`gcTypeImplements pkg name` = `gencommon.TypeImplements(T, I)` for the interface `I` that\n`gencommon.FindIFaceDef(pkg, name)` finds; `defaultTypeId` = the class of `types.Default(T)` under `types.Identical`; `isNil` = the interface value is nil\n(then the other attributes mean nothing; the translated functions ask `== nil` before they use such a value) -/\nstructure GType where\n  isNil : Bool\n  basic : Option BasicKind\n  defaultTypeId : Nat\n  typesImplements : String → String → Bool\n  gcTypeImplements : String → String → Bool\n  deriving Inhabited\n\n")
 	for _, st := range []struct{ goN, lean string }{{"TraitInstance", gtTI}, {"TraitDesc", gtTD}} {
 		fmt.Fprintf(&b, "/-- `type %s struct` -/\nstructure %s where\n", st.goN, st.lean)
 		for _, f := range gFieldOrder(fTraits, st.goN, t.fields[st.lean]) {
